@@ -611,6 +611,50 @@ func runC06(w *World, r *Report) {
 				r.check(everyItemReaches(fn, rv, nPourFunds), "balance-shape", "CalculateBalance/every-item-poured", lineOf(w, rv), "every ancestor delivered by the walker is poured unless it is in the local visited set", "a way back to the receive skips pourFunds")
 			}
 		}
+		// the tip that is poured is the very tip whose ancestors are walked, and it is poured once
+		for _, wc := range f.calls(dagM("AncestorsWalker")) {
+			_, wa := callArgs(wc)
+			start, okS := vertexOfHashArg(wa[0])
+			header := map[*ssa.BasicBlock]bool{}
+			for _, rv := range func() []*ssa.UnOp { r, _ := exhaustedEdges(fn, resultAt(wc, 0)); return r }() {
+				for b := range loopOf(rv.Block(), nil) {
+					header[b] = true
+				}
+			}
+			nTip := 0
+			okTip := okS
+			for _, c := range pcs {
+				if header[c.Block()] {
+					continue // the per-ancestor pour
+				}
+				nTip++
+				_, a := callArgs(c)
+				// vertex poured = *vrx where vrx is the DAG entry looked up by the start tip's hash
+				from := ""
+				for _, o := range origins(a[1]) {
+					if ld, isLd := o.(*ssa.UnOp); isLd {
+						for _, o2 := range origins(ld.X) {
+							if ex, isEx := o2.(*ssa.Extract); isEx {
+								if gc, isCall := ex.Tuple.(*ssa.Call); isCall && calleeName(gc) == nGetVertex {
+									_, ga := callArgs(gc)
+									if x, isV := vertexOfHashArg(ga[0]); isV {
+										from = pathOf(x)
+									}
+								}
+							}
+						}
+					}
+				}
+				if !okS || from != pathOf(start) {
+					okTip = false
+				}
+				if reachable(c.Block().Succs, nil)[c.Block()] {
+					okTip = false // poured inside a loop: several tips would be counted
+				}
+			}
+			r.check(okTip && nTip == 1, "balance-shape", "CalculateBalance/tip-is-walk-start", lineOf(w, wc), "exactly one tip is poured outside the walk, once, and it is the vertex whose ancestors are walked",
+				fmt.Sprintf("tip pours=%d bound-to-walk-start=%v", nTip, okTip))
+		}
 		// the starting tip is itself poured and is the walk's start
 		r.check(len(pcs) >= 2, "balance-shape", "CalculateBalance/tip-poured", w.Pos(fn.Pos()), "the tip itself is counted", "fewer than two pourFunds calls")
 	}
@@ -820,6 +864,55 @@ func runC07(w *World, r *Report) {
 		}
 	}
 	r.check(okPrev, "under-ledger-lock", "truncate/previous-checkpoint-first", w.Pos(fn.Pos()), "the stored checkpoint seeds the funds map before vertices are accumulated", "forEachfundFromStorage(fm.set) does not dominate the funds walk")
+
+	r.rule("checkpoint-writes-every-address", "saveToStorage writes a record for every address of the funds map: no iteration skips the write (a skipped write leaves the previous checkpoint's stale record in place)", 1)
+	if sf := w.fx(r, "accountant", "fundsMemMap", "saveToStorage"); sf != nil {
+		sfn := sf.fn
+		var next *ssa.Next
+		instrsOf(sfn, func(in ssa.Instruction) {
+			if n, ok := in.(*ssa.Next); ok {
+				if rg, ok := n.Iter.(*ssa.Range); ok && strings.HasSuffix(pathOf(rg.X), ".m") {
+					next = n
+				}
+			}
+		})
+		if next == nil {
+			r.bad("checkpoint-writes-every-address", "saveToStorage/range", w.Pos(sfn.Pos()), "range over the funds map", "not found")
+		} else {
+			var okv, key ssa.Value
+			for _, ref := range *next.Referrers() {
+				if e, ok := ref.(*ssa.Extract); ok {
+					switch e.Index {
+					case 0:
+						okv = e
+					case 1:
+						key = e
+					}
+				}
+			}
+			skipped := 0
+			if okv != nil {
+				for _, te := range trueEdges(sfn, okv) {
+					walkFrom(nil, te.To(), nil, func(x ssa.Instruction) bool {
+						if c, ok := x.(*ssa.Call); ok && c.Call.Value == ssa.Value(sfn.Params[1]) { // the save callback
+							if key != nil && len(c.Call.Args) > 0 && sameVal(c.Call.Args[0], key) {
+								return true
+							}
+						}
+						if _, ok := x.(*ssa.Return); ok {
+							return true
+						}
+						if x == ssa.Instruction(next) {
+							skipped++
+							return true
+						}
+						return false
+					})
+				}
+			}
+			r.check(okv != nil && skipped == 0, "checkpoint-writes-every-address", "saveToStorage/every-address", lineOf(w, next), "every ranged address reaches the save callback with its own key", fmt.Sprintf("%d ways to the next iteration without writing", skipped))
+		}
+	}
 
 	r.rule("no-dropped-drain-error", "in ledger accounting no insufficient-funds error of Drain / Transfer is dropped (a dropped one stores a wrong checkpoint)", 1)
 	for _, fn2 := range w.RepoFuncs("accountant") {
